@@ -1649,7 +1649,8 @@ def lookalike_units(doc, u, k):
 
 def builtin_override_sites():
     """every built-in unit name x {derived, new base unit} x {used by a variable, unused}"""
-    return [['builtin_override', n, form, used] for n in sorted(CELLML_BUILTINS) for form in ('derived', 'base')
+    # celsius is special: cellmlmanip does not support it, so it is not one of its built-in names
+    return [['builtin_override', n, form, used] for n in sorted(CELLML_BUILTINS - {'celsius'}) for form in ('derived', 'base')
             for used in (True, False)]
 
 
